@@ -1,6 +1,7 @@
 package lmd
 
 import (
+	"bufio"
 	"context"
 	"errors"
 	"fmt"
@@ -26,6 +27,7 @@ type ClientConnection struct {
 	lmd                   *Daemon
 	keepAliveTimer        *time.Timer
 	curRequest            *Request
+	reader                *bufio.Reader // buffered reader, shared by all requests of a keepalive connection
 	localAddr             string
 	remoteAddr            string
 	listenTimeout         int
@@ -96,7 +98,10 @@ func (cl *ClientConnection) answer(ctx context.Context) error {
 			LogErrors(cl.connection.SetDeadline(time.Now().Add(RequestReadTimeout)))
 		}
 
-		reqs, err := ParseRequests(ctx, cl.lmd, cl.connection)
+		if cl.reader == nil {
+			cl.reader = bufio.NewReader(cl.connection)
+		}
+		reqs, err := parseRequestsFromReader(ctx, cl.lmd, cl.connection, cl.reader)
 		if err != nil {
 			return cl.sendErrorResponse(err)
 		}
